@@ -479,8 +479,108 @@ def run_cycles(res):
             if wr() is not None:
                 res.fail('a treespec in a reference cycle through its payload is not reclaimed by the garbage collector',
                          f'{name} via {how}')
+    # cycles that run through a leaf iterator (tree_iter keeps its tree alive for as long as it lives): the
+    # treespec's key object refers to an iterator over a tree that has the treespec as a leaf — with the
+    # iterator fresh, partially advanced and exhausted
+    for state in ('fresh', 'advanced', 'exhausted'):
+        for shape in ('list', 'dict', 'nested', 'predicate'):
+            box = Box()
+            spec = optree.tree_structure({box: 1, 'x': (2, 3)}, namespace=ns)
+            if shape == 'predicate':
+                # the cycle closes through the is_leaf predicate instead of the tree:
+                # treespec -> key -> iterator -> predicate (closure) -> treespec
+                tree = [1, 2, (3,)]
+                it = optree.tree_iter(tree, is_leaf=(lambda x, _s=spec: False), namespace=ns)
+            else:
+                tree = {'list': lambda: [spec, 1, 2], 'dict': lambda: {'s': spec, 'a': 1},
+                        'nested': lambda: ([0, (spec,)], {'k': 5})}[shape]()
+                it = optree.tree_iter(tree, namespace=ns)
+            if state == 'advanced':
+                next(it)
+            elif state == 'exhausted':
+                for _ in it:
+                    pass
+                if list(it) != []:
+                    res.fail('an exhausted tree_iter yields again', f'{shape}')
+            box.ref = it                        # the cycle: treespec -> key -> iterator -> tree -> treespec
+            wr, wt = weakref.ref(box), weakref.ref(spec)
+            del tree, it, spec, box
+            for _ in range(3):
+                gc.collect()
+            res.evaluations += 1
+            res.count('cycle_cases')
+            if wr() is not None or wt() is not None:
+                res.fail('a treespec in a reference cycle through its payload is not reclaimed by the garbage collector',
+                         f'cycle through a {state} tree_iter over a {shape} holding the treespec')
+        # and the plain self-reference: the tree holds its own (fresh / advanced / exhausted) iterator
+        holder = Box()
+        tree = [1, 2, holder]
+        it = optree.tree_iter(tree, namespace=ns)
+        if state == 'advanced':
+            next(it)
+        elif state == 'exhausted':
+            for _ in it:
+                pass
+        holder.ref = it
+        wh = weakref.ref(holder)
+        del tree, it, holder
+        for _ in range(3):
+            gc.collect()
+        res.evaluations += 1
+        res.count('cycle_cases')
+        if wh() is not None:
+            res.fail('a tree in a reference cycle with its own leaf iterator is not reclaimed by the garbage collector',
+                     f'{state} tree_iter stored in a leaf of the tree it iterates over')
     optree.unregister_pytree_node(Meta, namespace=ns)
     optree.unregister_pytree_node(Ent, namespace=ns)
+
+
+# ---------------------------------------------------------------- cmd 29: what a leaf iterator reports to the collector
+def run_iter_gc(res, rng, n, limit):
+    """gc.get_referents(iterator) after k next() calls = the model's owned references: the objects pending on
+    the agenda, the root, and the is_leaf predicate when there is one"""
+    cmds, obs = [], []
+    for i in range(n):
+        cfg = gen.gen_cfg(rng, limit)
+        g = gen.TreeGen(rng, world.STRUCTSEQ_ARITY, max_nodes=rng.choice([4, 10, 25]), max_depth=rng.choice([2, 4, 6]),
+                        max_arity=rng.choice([2, 3, 5]))
+        o = g.tree()
+        k = rng.randrange(0, 8)
+        with World(cfg) as w:
+            tree = realize(o, random.Random(i), {})
+            kw = w.kw()
+            it = optree.tree_iter(tree, **kw)
+            r = (0,)
+            for _ in range(k):
+                r = attempt(lambda: next(it, None))
+                if r[0] != 0:
+                    break
+            if r[0] != 0:
+                ob = r
+            else:
+                refs = [x for x in gc.get_referents(it) if x is not type(it)]
+                pred = kw.get('is_leaf')
+                has_pred = has_root = 0
+                if pred is not None:
+                    for j, x in enumerate(refs):
+                        if x is pred:
+                            del refs[j]
+                            has_pred = 1
+                            break
+                for j in range(len(refs) - 1, -1, -1):
+                    if refs[j] is tree:
+                        del refs[j]
+                        has_root = 1
+                        break
+                ob = (0, tuple(sorted((abstract(x) for x in refs), key=sx.dump)), has_root, has_pred)
+        cmds.append((29, cfg, o, k))
+        obs.append(ob)
+        res.count('iter_gc_%s' % ('ok' if ob[0] == 0 else 'err'))
+    mod = runner.run_model(cmds)
+    for c, a, b in zip(cmds, obs, mod):
+        if isinstance(b, tuple) and len(b) == 4 and b[0] == 0:
+            b = (0, tuple(sorted(b[1], key=sx.dump)), b[2], b[3])
+        res.compare(c, a, b, 'cmd_iter_gc')
 
 
 # ---------------------------------------------------------------- main
@@ -523,6 +623,7 @@ def run(res, tier, seed):
     run_histories(res, tier, seed)
     run_leaf_release(res)
     run_cycles(res)
+    run_iter_gc(res, rng, 1000 if tier == 'quick' else 20000, limit)
 
 
 if __name__ == '__main__':
